@@ -188,6 +188,9 @@ func safeSchema(d *sqlittle.DB, t string) (s *sdb.Schema, err error) {
 }
 
 func runC05(c *sim.Ctx) {
+	// definitions may use an application-defined collation sqlittle cannot know
+	gen.AppCollation = true
+	defer func() { gen.AppCollation = false }()
 	s := c.Src
 	e := env(c)
 	dir, cleanup := e.RunDir()
